@@ -236,6 +236,19 @@ fn check_render(neg: bool, coeff: &str, exp: i64, via_feel: bool) -> Option<J> {
       Ok(dmntk_feel::values::Value::Number(m)) if m == n => {}
       other => return Some(json!({"kind": "xsd_decimal_value", "lit": lit, "got": clip(&format!("{:?}", other))})),
     }
+    // xsd:double in both of its spellings (plain and with an exponent), xsd:integer for integers
+    for (spelling, text) in [("plain", plain.as_str()), ("exponent", lit.as_str())] {
+      match dmntk_feel::values::Value::try_from_xsd_double(text) {
+        Ok(dmntk_feel::values::Value::Number(m)) if m == n => {}
+        other => return Some(json!({"kind": format!("xsd_double_value:{}", spelling), "lit": lit, "text": clip(text), "got": clip(&format!("{:?}", other))})),
+      }
+    }
+    if exp >= 0 {
+      match dmntk_feel::values::Value::try_from_xsd_integer(&plain) {
+        Ok(dmntk_feel::values::Value::Number(m)) if m == n => {}
+        other => return Some(json!({"kind": "xsd_integer_value", "lit": lit, "got": clip(&format!("{:?}", other))})),
+      }
+    }
   }
   None
 }
